@@ -49,7 +49,7 @@ def r1_scope_pairing(m, blocks):
             if client.acquires:
                 r.notes.append("%s: enter_scope reachable although the start class is not a scoping class" % inst.tag)
     # every other function that enters a scope
-    others = [f for f in functions_calling(m, "SYMBOL_TABLES.enter_scope") if f is not ctx.engine
+    others = [f for f in functions_calling(m, "SYMBOL_TABLES.enter_scope") if f is not ctx.engine and f is not ctx.engine_raw
               and not f.qualname.startswith("SymbolTables.")]
     for f in others:
         cb.run_scope(ctx, f, None, r, f.qualname, guard=None)
